@@ -3,17 +3,6 @@ NOTES = ("Technique family: machine-checked proof in Coq 8.16.1. Every claimed p
          "executable Gallina models, and a correspondence check that runs the extracted model and the implementation built "
          "from /repo's current working tree on the same inputs. See DESIGN.md.")
 
-CLAIMED = {
- "C16": {
-  "text": "Refinement theorems (all capacities, all operation sequences, by induction) from the concrete representation "
-          "models (ring buffer with start/len cursors, ...) to unbounded reference containers with a capacity guard; the models are tied to "
-          "the real heap/inline/relocatable containers by differential execution of exhaustive short and long random histories "
-          "with a drop-logging element type.",
-  "design_ref": "DESIGN.md section 4 C16",
-  "note": "Trusted: Coq kernel; extraction (ExtrOcamlBasic only) + OCaml driver (parse/print); Rust harness; the tie is observational "
-          "(return values, len, drop log), so a divergence needs a history inside the explored bounds to be seen. Memory safety of the unsafe code is not modelled.",
-  "technique": "Coq refinement proof (induction over op lists) + extracted-model differential correspondence",
- },
-}
+CLAIMED = {}   # filled from tools/claims/Cxx.json by gen_manifest.py
 
 NOT_CLAIMED = {}
